@@ -37,6 +37,9 @@ def families(rng, torch, b, n, d, codes=None):
     r = torch.randn(1, 1, d)
     F['identical-rows'] = r.expand(b, n, d).contiguous()
     F['mixed-scales'] = torch.randn(b, n, d) * torch.tensor([10.0 ** rng.randint(-20, 4) for _ in range(d)])
+    # memory layout: an EXPANDED (stride-0) batch of one row and a dense permuted view of random values
+    F['expanded-stride0'] = torch.randn(1, 1, d).expand(b, n, d)
+    F['permuted-view'] = torch.randn(d, b, n).permute(1, 2, 0)
     if codes is not None and codes.shape[-1] == d:
         k = codes.shape[0]
         pick = codes[torch.randint(0, k, (b, n))]
@@ -232,6 +235,38 @@ def correspond(ctx, scale):
                         failures.append({'key': f'{m["name"]}:param-{mode}:non-finite:{bad[0].split("/")[0]}', 'what': f'{m["name"]} with parameter {pn} degenerate ({mode}; an exactly-zero column / row / tensor), finite random input, '
                                          f'train={train}: non-finite values in {bad}', 'case': dict(module=m['name'], parameter=pn, mode=mode, train=train)})
                         break
+        # uninitialised memory: under torch.use_deterministic_algorithms(True) every torch.empty() is filled with NaN, which turns "allocated but
+        # never written" state into a deterministic observation.  A module BUILT in that mode has finite state, and its first call - frozen where the
+        # class supports it, so that nothing is initialised lazily behind the caller's back - returns finite values
+        if rep == 0:
+            was_det = torch.are_deterministic_algorithms_enabled()
+            try:
+                torch.use_deterministic_algorithms(True, warn_only=True)
+                mod = m['mk']()
+                bad = finite_report(m['name'], [('state/' + k, v) for k, v in mod.state_dict().items()])
+                for first_kw in ([dict(freeze_codebook=True), {}] if m['name'].startswith(('vq', 'rvq', 'zoo-res-rvq')) else [{}]):
+                    mod = m['mk']()
+                    mod.train(True)
+                    x = torch.randn(2, 3, m['dim'])
+                    if m['name'] == 'latent':
+                        x = x.movedim(-1, 1)
+                    try:
+                        ret = mod(x, **dict(m['kw'], **first_kw))
+                    except TypeError:
+                        continue
+                    outs = [('output/' + str(i), r) for i, r in enumerate(ret if isinstance(ret, tuple) else (ret,)) if isinstance(r, torch.Tensor)]
+                    if hasattr(ret, '_fields'):
+                        outs = [(f, getattr(ret, f)) for f in ret._fields]
+                    bad += finite_report(m['name'], outs) + finite_report(m['name'], [('state/' + k, v) for k, v in mod.state_dict().items()])
+                    ev += 1
+                    dist['deterministic_mode_first_calls'] = dist.get('deterministic_mode_first_calls', 0) + 1
+                if bad:
+                    failures.append({'key': f'{m["name"]}:uninitialised-memory:non-finite:{bad[0].split("/")[0]}', 'what': f'{m["name"]} built and first called under torch.use_deterministic_algorithms(True) '
+                                     f'(uninitialised memory reads as NaN): non-finite values in {bad[:4]}', 'case': dict(module=m['name'])})
+            except Exception as ex:
+                failures.append({'key': f'{m["name"]}:deterministic-mode:exception:{type(ex).__name__}', 'what': f'{m["name"]}: {ex!r}', 'case': dict(module=m['name'])})
+            finally:
+                torch.use_deterministic_algorithms(was_det)
         if len(samples) < 5:
             samples.append(dict(module=m['name'], families=list(fams)))
     # the model's divisor bounds evaluated on the degenerate scalars (exact rationals): safe_div(0, 0), laplace with an all-zero count vector
